@@ -20,6 +20,7 @@ def check(ctx, run):
     layout.r01_2(ctx, run)
     layout.r01_3(ctx, run)
     numcodec.r18_1(ctx, run, rule='R01.4/R18.1')
+    numcodec.bitlen_widths(ctx, run, 'R01.4/R18.1')
     numcodec.r18_2(ctx, run, rule='R01.4/R18.2')
     layout.r01_5(ctx, run)
     layout.r01_7(ctx, run)
